@@ -332,28 +332,38 @@ NearFences == {f \in Fences : Cardinality({k \in {"epoch", "lepoch", "op", "gen"
 Total  == SumTo(m.infl.counts, Len(m.infl.counts))
 Offs   == 0..MaxOff
 
+IsMach == cfg.level = "machine"
+IsReac == cfg.level = "reactor"
+
+NMeta ==
+  \E mt \in Metas :
+     /\ IsReac => mt.leader = cfg.local /\ mt.status = "active"
+     /\ Meta(mt)
+NPropose == IsMach /\ \E b \in BatchIds, ws \in Batches : Propose(b, ws)
+\* results for the in-flight batch: any base, complete or one short, success or error
+NStored ==
+  IsMach /\ \E base \in 1..MaxOff, short \in {0, 1}, err \in BOOLEAN :
+     /\ m.infl.present /\ base + Total - 1 <= MaxOff
+     /\ Stored(Current, base, base + Total - 1 - short, err)
+NStoredStale == IsMach /\ \E f \in NearFences : Stored(f, m.leo + 1, m.leo + 1, FALSE)
+\* receipts for the in-flight batch: well formed, short, or with a lagging watermark
+NQuorum ==
+  IsMach /\ \E first \in Offs, short \in {0, 1}, d \in {0, 1} :
+     /\ m.infl.present /\ first + Total - 1 - short - d >= 0 /\ first + Total - 1 <= MaxOff
+     /\ Quorum(Current, first, first + Total - 1 - short, first + Total - 1 - short - d, FALSE)
+NQuorumErr   == IsMach /\ m.infl.present /\ Quorum(Current, 0, 0, 0, TRUE)
+NQuorumStale == IsMach /\ \E f \in NearFences : Quorum(f, m.leo + 1, m.leo + 1, m.leo + 1, FALSE)
+NCancel      == IsMach /\ \E o \in 1..MaxOp : Cancel(o)
+NAbort       == IsMach /\ \E b \in BatchIds : Abort(b)
+NCheckpoint  == IsMach /\ \E v \in Offs : Checkpoint(v)
+NAppend ==
+  IsReac /\ \E o \in {nextOp} \cup DOMAIN m.pend, mode \in Modes, n \in Counts :
+     o <= MaxOp /\ m.leo + n <= MaxOff /\ AppendReq(o, mode, n)
+NAck == \E f \in Nodes, off \in 0..(m.leo + 1) : Ack(f, off)
+
 Next ==
-  \/ \E mt \in Metas :
-        /\ cfg.level = "reactor" => mt.leader = cfg.local /\ mt.status = "active"
-        /\ Meta(mt)
-  \/ cfg.level = "machine" /\
-     \/ \E b \in BatchIds, ws \in Batches : Propose(b, ws)
-     \/ \E base \in 1..MaxOff, short \in {0, 1}, err \in BOOLEAN :
-          /\ m.infl.present /\ base + Total - 1 <= MaxOff
-          /\ Stored(Current, base, base + Total - 1 - short, err)
-     \/ \E f \in NearFences : Stored(f, m.leo + 1, m.leo + 1, FALSE)
-     \/ \E first \in Offs, short \in {0, 1}, d \in {0, 1} :
-          /\ m.infl.present /\ first + Total - 1 - short - d >= 0 /\ first + Total - 1 <= MaxOff
-          /\ Quorum(Current, first, first + Total - 1 - short, first + Total - 1 - short - d, FALSE)
-     \/ m.infl.present /\ Quorum(Current, 0, 0, 0, TRUE)
-     \/ \E f \in NearFences : Quorum(f, m.leo + 1, m.leo + 1, m.leo + 1, FALSE)
-     \/ \E o \in 1..MaxOp : Cancel(o)
-     \/ \E b \in BatchIds : Abort(b)
-     \/ \E v \in Offs : Checkpoint(v)
-  \/ cfg.level = "reactor" /\
-     \E o \in {nextOp} \cup DOMAIN m.pend, mode \in Modes, n \in Counts :
-        o <= MaxOp /\ m.leo + n <= MaxOff /\ AppendReq(o, mode, n)
-  \/ \E f \in Nodes, off \in 0..(m.leo + 1) : Ack(f, off)
+  \/ NMeta \/ NPropose \/ NStored \/ NStoredStale \/ NQuorum \/ NQuorumErr \/ NQuorumStale
+  \/ NCancel \/ NAbort \/ NCheckpoint \/ NAppend \/ NAck
 
 Spec == Init /\ [][Next]_vars
 
